@@ -14,6 +14,7 @@ import (
 	"path/filepath"
 	"reflect"
 	"regexp"
+	"runtime"
 	"sort"
 	"strings"
 	"time"
@@ -65,7 +66,7 @@ type mkStruct struct {
 }
 
 func genContractCase(r *Rng) contractCase {
-	switch r.intn(27) {
+	switch r.intn(28) {
 	case 0, 1:
 		a, b := int64(r.next())>>uint(r.intn(64)), int64(r.next())>>uint(r.intn(64))
 		switch r.intn(4) {
@@ -462,6 +463,11 @@ func genContractCase(r *Rng) contractCase {
 			}
 			return ""
 		}}
+	case 27:
+		// defined types that are named like their kind ("int8", "string", ...), as a user package may well declare:
+		// the requested dynamic type, also as field, element and key
+		gk := makeKindNamed()
+		return contractCase{"Make[types named like their kind]", func(t *rapid.T) string { return gk(t) }}
 	case 25:
 		// two distinct types with the same name (reflect.Type.String() is not a key): the requested dynamic type
 		ga, gb := makeSameNameA(), makeSameNameB()
@@ -1131,6 +1137,54 @@ func cmdC18Oracle(args []string) {
 	}
 	js, _ := json.Marshal(map[string]any{"stats": stats, "failures": fails})
 	fmt.Println(string(js))
+}
+
+type (
+	aliasInt8    = int8
+	aliasString  = string
+	aliasFloat64 = float64
+	aliasBool    = bool
+	aliasUint    = uint
+)
+
+// local defined types whose names equal the names of their kinds
+func makeKindNamed() func(*rapid.T) string {
+	type int8 aliasInt8
+	type string aliasString
+	type float64 aliasFloat64
+	type bool aliasBool
+	type uint aliasUint
+	type holder struct {
+		A int8
+		B string
+		C float64
+		D bool
+		E uint
+		S []int8
+		M map[string]bool
+	}
+	g1, g2, g3, g4, g5 := rapid.Make[int8](), rapid.Make[string](), rapid.Make[float64](), rapid.Make[bool](), rapid.Make[uint]()
+	gh := rapid.Make[holder]()
+	gs := rapid.Make[[]string]()
+	return func(t *rapid.T) (res aliasString) {
+		defer func() {
+			if r := recover(); r != nil {
+				if re, ok := r.(runtime.Error); ok {
+					res = fmt.Sprintf("Make for a type named like its kind panics: %v", re)
+					return
+				}
+				panic(r)
+			}
+		}()
+		_ = any(g1.Draw(t, "a")).(int8)
+		_ = any(g2.Draw(t, "b")).(string)
+		_ = any(g3.Draw(t, "c")).(float64)
+		_ = any(g4.Draw(t, "d")).(bool)
+		_ = any(g5.Draw(t, "e")).(uint)
+		_ = any(gh.Draw(t, "h")).(holder)
+		_ = any(gs.Draw(t, "s")).([]string)
+		return ""
+	}
 }
 
 // two local types called T: both print as "main.T"
